@@ -33,8 +33,11 @@ import traceback
 
 VERIF = os.path.dirname(os.path.dirname(os.path.abspath(__file__)))
 SPEC_DIR = os.path.join(VERIF, 'spec')
-EVIDENCE_DIR = os.path.join(VERIF, 'evidence')
-REPLAY_DIR = os.path.join(VERIF, 'replays')
+# VERIF_OUT_DIR: write evidence and replay files elsewhere (used when a seeded change is evaluated, so that the evidence
+# under /verif/evidence always describes a run on the unchanged tree)
+_OUT = os.environ.get('VERIF_OUT_DIR') or VERIF
+EVIDENCE_DIR = os.path.join(_OUT, 'evidence')
+REPLAY_DIR = os.path.join(_OUT, 'replays')
 KNOWN_FINDINGS = os.path.join(VERIF, 'known_findings.json')
 TLA_JAR = '/opt/veriftools/tla/tla2tools.jar'
 TLA_DEPS = '/opt/veriftools/tla/CommunityModules-deps.jar'
